@@ -168,6 +168,9 @@ func (g *Gen) Object() []string {
 		lat := strconv.FormatFloat(float64(g.R.Intn(1600)-800)/10, 'f', -1, 64)
 		lon := strconv.FormatFloat(float64(g.R.Intn(3400)-1700)/10, 'f', -1, 64)
 		if g.R.Intn(4) == 0 {
+			if g.R.Intn(4) == 0 {
+				return []string{"POINT", lat, lon, g.pick([]string{"0", "0.0", "-0", "0e0"})} // an altitude of zero is still an altitude
+			}
 			return []string{"POINT", lat, lon, strconv.Itoa(g.R.Intn(100) + 1)}
 		}
 		return []string{"POINT", lat, lon}
